@@ -17,13 +17,20 @@ def load(crates, scalar_types=None, hooks=None, primary=None, dep_adts=(), **kw)
         key = dumps[c]['mir']
         if key not in _FN_CACHE:
             _FN_CACHE[key] = mir.load_functions(dumps[c]['mir'], c)
+        pref = '' if c == crates[0] else c.replace('-', '_') + '::'
         for n, f in _FN_CACHE[key].items():
-            fns.setdefault(n, f)
+            if pref:
+                g = mir.Fn(pref + n, f.sig, f.ret, f.crate); g.lines = f.lines
+                fns.setdefault(pref + n, g)
+            else:
+                fns.setdefault(n, f)
         adts.add(json.load(open(dumps[c]['adt'])))
     for c, pth in snap.get_dep_adts(list(dep_adts)).items():
         adts.add(json.load(open(pth)))
     impls = mir.ImplIndex(snap.REPO)
     ex = engine.Engine(fns, adts, impls, scalar_types=scalar_types, hooks=hooks, **kw)
+    ex.crate_prefixes = {c: c.replace('-', '_') + '::' for c in crates[1:]}
+    ex.primary_crate = crates[0]
     ex.dumps = dumps
     ex.load_s = time.time() - t0
     return ex
